@@ -169,6 +169,13 @@ pub fn c01_oracle(ctx: &mut Ctx, name: &str, t: &str, o: &Opt, lines: &Option<Ve
 }
 
 pub fn c01(ctx: &mut Ctx) {
+    // custom wrap algorithms / word separators: no model counterpart, the slice predicate decides
+    for _ in 0..ctx.n(5000, 100_000) {
+        let (t, o) = custom_alg_input(&mut ctx.rng);
+        let (lines, _) = real_wrap(&t, &o);
+        ctx.count("custom_algorithm_or_separator_cases");
+        c01_oracle(ctx, "wrap", &t, &o, &lines);
+    }
     small_scope_wrap(ctx, |ctx, t, o| {
         let (op, lines) = op_wrap(t, o);
         ctx.case(op, call("wrap", t, o));
@@ -509,7 +516,21 @@ pub fn c08_oracle(ctx: &mut Ctx, t: &str, o: &Opt, lines: &Option<Vec<LineOut>>)
 /// what is exercised)
 fn custom_alg_input(rng: &mut Rng) -> (String, Opt) {
     let (t, mut o) = wrap_input(rng, false);
-    o.alg = *rng.pick(crate::opt::CUSTOM_ALGS);
+    // a custom algorithm, a custom separator, or both
+    match rng.below(3) {
+        0 => o.alg = *rng.pick(crate::opt::CUSTOM_ALGS),
+        1 => o.sep = 'x',
+        _ => { o.alg = *rng.pick(crate::opt::CUSTOM_ALGS); o.sep = 'x'; }
+    }
+    if o.sep == 'x' {
+        // give the custom separator something to do
+        let t2: String = t.chars().map(|c| if c == 'b' { ',' } else if c == '1' { ';' } else { c }).collect();
+        return finish_custom(rng, t2, o);
+    }
+    finish_custom(rng, t, o)
+}
+
+fn finish_custom(rng: &mut Rng, t: String, mut o: Opt) -> (String, Opt) {
     o.ii = gen::indent(rng);
     o.si = gen::indent(rng);
     if rng.chance(1, 3) {
